@@ -17,6 +17,7 @@ package quickfix
 
 import (
 	"errors"
+	"math"
 	"strconv"
 )
 
@@ -56,7 +57,14 @@ func parseUInt(d []byte) (n int, err error) {
 			return
 		}
 
-		n = n*10 + (int(dec) - ascii0)
+		digit := int(dec) - ascii0
+		if n > (math.MaxInt-digit)/10 {
+			// The value does not fit: wrapped around it would pass for another number.
+			err = errors.New("value out of range")
+			return
+		}
+
+		n = n*10 + digit
 	}
 
 	return
